@@ -68,6 +68,8 @@ def run(ck: Checker, prog: Program, tier: str):
     with ck.borrow(c08, "C11.R1+"):
         ck.guard(c08._r2, ck, prog)
         ck.guard(c08._members_private, ck, prog)
+        # the peak of the mean curve is searched over the range in force, as for a traditional result (single azimuth == traditional)
+        ck.guard(c08._r3, ck, prog)
     from . import c03
     with ck.borrow(c03, "C11.R2+"):
         ck.guard(c03._validation, ck, prog)
